@@ -12,6 +12,8 @@
 //!   C08 tmeta <hex>           decode_metadata on raw bytes                        (search only)
 //!   C08 pq <file> <mutation>  corrupted Parquet file through ParquetRecordBatchReader (search only)
 //!   C08 pqraw <hex>           the same on explicit bytes                          (search only)
+//!   C08 variant <id> <m|v>:<mutation>   Variant::try_new on corrupted metadata / value buffers + full traversal (search only)
+//!   C08 variantraw <meta hex> <value hex>
 //! Every case runs in a worker process under a watchdog and a capping allocator (c08_infra.rs).
 use arrow_array::{Array, ArrayRef, BooleanArray, Int32Array, Int64Array, ListArray, RecordBatch, StringArray};
 use arrow_array::builder::{Int32Builder, ListBuilder};
@@ -267,6 +269,123 @@ fn mutate(mut f: Vec<u8>, spec: &str, files: &dyn Fn(usize) -> Vec<u8>) -> Vec<u
     f
 }
 
+
+// ------------------------------------------------------------------ Variant binary format
+
+pub const N_VARIANTS: usize = 4;
+fn build_variant(id: usize) -> (Vec<u8>, Vec<u8>) {
+    use parquet_variant::{Variant, VariantBuilder, VariantDecimal4};
+    let mut b = VariantBuilder::new();
+    match id {
+        0 => {
+            let mut o = b.new_object();
+            o.insert("name", "héllo wörld, a string longer than the short-string limit of sixty-three bytes .......");
+            o.insert("id", 12345678901i64);
+            o.insert("ok", true);
+            o.insert("pi", 3.25f64);
+            o.insert("s", "short");
+            {
+                let mut l = o.new_list("tags");
+                l.append_value(1i8);
+                l.append_value("two");
+                l.append_value(Variant::Null);
+                l.append_value(VariantDecimal4::try_new(1234, 2).unwrap());
+                l.finish();
+            }
+            {
+                let mut inner = o.new_object("nested");
+                inner.insert("x", 1i32);
+                inner.insert("y", -2i16);
+                inner.finish();
+            }
+            o.finish();
+        }
+        1 => {
+            let mut l = b.new_list();
+            for i in 0..40i32 {
+                l.append_value(i * 1000);
+            }
+            for i in 0..5 {
+                let mut o = l.new_object();
+                o.insert("k", i as i64);
+                o.insert("v", "vvvvvvvv");
+                o.finish();
+            }
+            l.finish();
+        }
+        2 => {
+            // many field names: wide offsets / large dictionary
+            let names: Vec<String> = (0..300).map(|i| format!("field_{:03}", i)).collect();
+            let mut o = b.new_object();
+            for (i, n) in names.iter().enumerate() {
+                o.insert(n, i as i32);
+            }
+            o.finish();
+        }
+        _ => {
+            b.append_value(&b"\x00\x01binary\xff"[..]);
+        }
+    }
+    b.finish()
+}
+fn base_variant(id: usize) -> (Vec<u8>, Vec<u8>) {
+    static V: std::sync::OnceLock<Vec<(Vec<u8>, Vec<u8>)>> = std::sync::OnceLock::new();
+    V.get_or_init(|| (0..N_VARIANTS).map(build_variant).collect())[id % N_VARIANTS].clone()
+}
+
+/// full traversal of a validated variant: every field name, every element, every scalar rendered
+fn walk_variant(v: &parquet_variant::Variant, depth: usize, budget: &mut usize) -> Result<(), String> {
+    use parquet_variant::Variant;
+    if *budget == 0 {
+        return Err("INVALID:traversal-unbounded".into());
+    }
+    *budget -= 1;
+    if depth > 2000 {
+        return Err("INVALID:depth".into());
+    }
+    match v {
+        Variant::Object(o) => {
+            let n = o.len();
+            for (name, child) in o.iter() {
+                let _ = name.len();
+                walk_variant(&child, depth + 1, budget)?;
+            }
+            for i in 0..n {
+                let _ = o.field_name(i);
+                let _ = o.field(i);
+            }
+            if let Some((name, _)) = o.iter().next() {
+                let _ = o.get(name);
+            }
+            let _ = o.get("no-such-field");
+        }
+        Variant::List(l) => {
+            for child in l.iter() {
+                walk_variant(&child, depth + 1, budget)?;
+            }
+            let _ = l.get(l.len());
+        }
+        other => {
+            let s = format!("{:?}", other);
+            let _ = s.len();
+        }
+    }
+    Ok(())
+}
+
+fn read_variant(meta: &[u8], value: &[u8]) -> String {
+    match parquet_variant::Variant::try_new(meta, value) {
+        Err(_) => "ERR".into(),
+        Ok(v) => {
+            let mut budget = 2_000_000usize;
+            match walk_variant(&v, 0, &mut budget) {
+                Ok(()) => "ok".into(),
+                Err(e) => e,
+            }
+        }
+    }
+}
+
 // ------------------------------------------------------------------ run one case (in the worker)
 
 fn run_case(line: &str) -> String {
@@ -343,6 +462,27 @@ fn run_case(line: &str) -> String {
         "pqraw" => {
             let b = unhex(arg(2));
             guarded(move || read_parquet(b))
+        }
+        "variant" => {
+            let id = arg(2).trim_start_matches('v').parse::<usize>().unwrap_or(0) % N_VARIANTS;
+            let spec = arg(3).to_string();
+            guarded(move || {
+                let (mut m, mut v) = base_variant(id);
+                let other = |i: usize| {
+                    let (a, b) = base_variant(i % N_VARIANTS);
+                    [a, b].concat()
+                };
+                if let Some(sp) = spec.strip_prefix("m:") {
+                    m = mutate(m, sp, &other);
+                } else if let Some(sp) = spec.strip_prefix("v:") {
+                    v = mutate(v, sp, &other);
+                }
+                read_variant(&m, &v)
+            })
+        }
+        "variantraw" => {
+            let (m, v) = (unhex(arg(2)), unhex(arg(3)));
+            guarded(move || read_variant(&m, &v))
         }
         _ => "bad-op".into(),
     }
@@ -565,7 +705,7 @@ fn witnesses(thorough: bool) -> Vec<(String, String, usize)> {
     w(format!("C08 tmeta {}160019fcffffffff07", hex(FOOTER_HEAD)), "op:tmeta witness:thrift-rowgroup-capacity nt");
     // skip of a list<bool> with 2^31-1 elements in an unknown field (id 15): loop without consuming input
     // (six such fields: 48 bytes of input, 6 * 2^31 iterations)
-    w(format!("C08 tmeta {}1600190c{}00", hex(FOOTER_HEAD), "f9f1ffffffff07".repeat(if thorough { 24 } else { 6 })), "op:tmeta witness:thrift-skip-bool-list nt");
+    w(format!("C08 tmeta {}1600190c{}00", hex(FOOTER_HEAD), "f9f1ffffffff07".repeat(if thorough { 24 } else { 12 })), "op:tmeta witness:thrift-skip-bool-list nt");
     // BitReader::get_vlq_int assert
     w("C08 bvlq ffffffffffffffffffffff".into(), "op:bvlq witness:bitreader-vlq-overlong nt");
     w("C08 delta ffffffffffffffffffffff01".into(), "op:delta witness:bitreader-vlq-overlong nt");
@@ -639,6 +779,49 @@ fn sweep(args: &Args, rng: &mut Rng) -> Vec<(String, String, usize)> {
     out
 }
 
+fn sweep_variant(args: &Args, rng: &mut Rng) -> Vec<(String, String, usize)> {
+    let mut out = vec![];
+    let thorough = args.tier == "thorough";
+    for id in 0..N_VARIANTS {
+        let (m, v) = base_variant(id);
+        for (which, buf) in [("m", &m), ("v", &v)] {
+            let n = buf.len();
+            let total = m.len() + v.len();
+            let mut push = |spec: String, class: &str, out: &mut Vec<(String, String, usize)>| {
+                out.push((format!("C08 variant v{} {}:{}", id, which, spec), format!("op:variant file:v{}{} mut:{} nt", id, which, class), total));
+            };
+            if which == "m" {
+                push("xor:0:00".into(), "none", &mut out);
+            }
+            // large buffers (the 300-field dictionary) are strided in the quick tier
+            let stride = if thorough || n <= 400 { 1 } else { 5 };
+            for off in (0..n).step_by(stride) {
+                let vals: &[&str] = if thorough || off < 16 { &["set:ff", "set:00", "xor:01", "xor:80", "set:7f", "xor:04", "xor:40"] } else { &["set:ff", "set:00", "xor:01", "xor:80"] };
+                for x in vals {
+                    let (k, y) = x.split_once(':').unwrap();
+                    push(format!("{}:{}:{}", k, off, y), "byte", &mut out);
+                }
+            }
+            for len in (0..n).step_by(if thorough || n <= 400 { 1 } else { 7 }) {
+                push(format!("trunc:{}", len), "trunc", &mut out);
+            }
+            // counts / offsets are 1-4 byte little-endian fields: inflate every position
+            for off in (0..n.saturating_sub(4)).step_by(if thorough || n <= 400 { 1 } else { 9 }) {
+                push(format!("le32:{}:-1", off), "inflate-le32", &mut out);
+                push(format!("le32:{}:{}", off, n), "inflate-le32", &mut out);
+                push(format!("le32:{}:2147483647", off), "inflate-le32", &mut out);
+            }
+            for _ in 0..(if thorough { 200 } else { 20 }) {
+                let other = (id + 1 + rng.usize(N_VARIANTS - 1)) % N_VARIANTS;
+                let l = 1 + rng.usize(32);
+                let (a, b) = (rng.usize(200), rng.usize(n.max(1)));
+                push(format!("cross:{}:{}:{}:{}", other, a, l, b), "cross", &mut out);
+            }
+        }
+    }
+    out
+}
+
 fn main() {
     let argv: Vec<String> = std::env::args().collect();
     if argv.get(1).map(|s| s.as_str()) == Some("worker") {
@@ -647,7 +830,7 @@ fn main() {
     }
     let args = parse_args();
     let mut sink = Sink::new(&args.out);
-    let timeout = Duration::from_secs(if args.tier == "thorough" { 30 } else { 12 });
+    let timeout = Duration::from_secs(if args.tier == "thorough" { 20 } else { 6 });
     let mut w = Worker::spawn(timeout);
     if args.mode == "replay" {
         for line in read_cases(args.replay.as_ref().unwrap()) {
@@ -665,7 +848,12 @@ fn main() {
             run_and_record(&mut w, &mut sink, line, &tags, len);
         }
         if args.cases.is_none() {
-            let sw = sweep(&args, &mut rng);
+            // C08_SWEEP=pq|variant restricts the sweep (debugging aid)
+            let only = std::env::var("C08_SWEEP").unwrap_or_default();
+            let mut sw = if only == "variant" { vec![] } else { sweep(&args, &mut rng) };
+            if only != "pq" {
+                sw.extend(sweep_variant(&args, &mut rng));
+            }
             let loud = std::env::var("VERIF_LOUD").is_ok();
             let t0 = std::time::Instant::now();
             for (i, (line, tags, len)) in sw.into_iter().enumerate() {
